@@ -21,7 +21,7 @@ func init() { Registry["C05"] = C05 }
 
 // adversarial texts for comments, log calls and string literals
 var c05Texts = []string{"plain", "(*", "*)", "(*)", "*)(*", "(**)", "((*", "*))", "(* x *)", "a (* b (* c *) d", "é ü 世界", "x *) y (* z", "(*(*(*", "*)*)*)", ").", "Definition x := y.", "End code.", "a.\nb", "tab\there"}
-var c05Quoted = []string{"say \"hi", "\"", "a \"b\" c \"", "it's \"(*\""}
+var c05Quoted = []string{"say \"hi", "\"", "a \"b\" c \"", "it's \"(*\"", "unmatched \"*)\" here", "a \"(*\" b \"*)\" c", "\"\"", "x \"(* y *)\" z", "\"*)(*\""}
 
 func classesOf(text string) []string {
 	var out []string
@@ -58,6 +58,7 @@ type c05Pkg struct {
 	name      string
 	src       string
 	ndefs     int
+	convDefs  int // of which generated interface conversions (not emitted under -skip-interfaces)
 	key       string // finding key class of the adversarial text used
 }
 
@@ -138,8 +139,9 @@ func Last%d() uint64 {
 	return 7
 }
 `, strings.ReplaceAll(docLines[0], "\n", " "), i, doc.String(), i, strings.ReplaceAll(docLines[0], "\n", " "), i, esc, esc, esc, esc, esc, i, strLit, i, i, i, i)
+	// the known finding is about an ODD number of double quotes; balanced quotes are ordinary text
 	key := "c05.text"
-	if quoted {
+	if quoted && strings.Count(text, "\"")%2 == 1 {
 		key = "c05.comment-odd-quote"
 	}
 	return c05Pkg{name: fmt.Sprintf("w%d", i), src: src, ndefs: 8, key: key}
@@ -205,6 +207,23 @@ func C05(c *ev.Ctx) {
 		src := fmt.Sprintf("package gen\n\nfunc Before%d() uint64 {\n\treturn 1\n}\n\nfunc Quoted%d() string {\n\treturn %s\n}\n\nfunc After%d() uint64 {\n\treturn 2\n}\n", i, i, lit, i)
 		pkgs = append(pkgs, c05Pkg{name: fmt.Sprintf("wq%d", i), src: src, ndefs: 3, key: "c05.text", mayReject: true})
 	}
+	// structs passed where an interface is expected: one- and two-method interfaces, alone and followed by further
+	// arguments (the call must keep its arity when read with Coq's precedence, every sentence must be closed)
+	for i, v := range []struct {
+		methods, params, args string
+	}{
+		{"\tArea() uint64\n", "sh Shape", "s"},
+		{"\tArea() uint64\n", "sh Shape, a uint64, b uint64", "s, 7, 9"},
+		{"\tArea() uint64\n\tSide() uint64\n", "sh Shape", "s"},
+		{"\tArea() uint64\n\tSide() uint64\n", "sh Shape, a uint64, b uint64", "s, 7, 9"},
+	} {
+		sum := "sh.Area()"
+		if strings.Contains(v.params, "a uint64") {
+			sum += " + a + b"
+		}
+		src := fmt.Sprintf("package gen\n\ntype Shape interface {\n%s}\n\ntype Sq struct {\n\tside uint64\n}\n\nfunc (s Sq) Area() uint64 {\n\treturn s.side * s.side\n}\n\nfunc (s Sq) Side() uint64 {\n\treturn s.side\n}\n\nfunc describe(%s) uint64 {\n\treturn %s\n}\n\nfunc UseIface() uint64 {\n\ts := Sq{side: 2}\n\treturn describe(%s)\n}\n\nfunc After%d() uint64 {\n\treturn 2\n}\n", v.methods, v.params, sum, v.args, i)
+		pkgs = append(pkgs, c05Pkg{name: fmt.Sprintf("wi%d", i), src: src, ndefs: 8, convDefs: 1, key: "c05.text"})
+	}
 	for _, p := range pkgs {
 		d := filepath.Join(m.dir, p.name)
 		_ = os.MkdirAll(d, 0755)
@@ -247,6 +266,11 @@ func C05(c *ev.Ctx) {
 			tag := fmt.Sprintf("%s%v", p.name, flags)
 			emitted[tag] = text
 			ndefs := p.ndefs
+			for _, f := range flags {
+				if f == "-skip-interfaces" {
+					ndefs -= p.convDefs
+				}
+			}
 			recs = append(recs, map[string]any{"name": tag, "text": classesOf(text), "defs": ndefs})
 			_ = reTheorem
 			// syntactic well-formedness and constructor arities (text without quoted comments only)
@@ -258,6 +282,9 @@ func C05(c *ev.Ctx) {
 				}
 				if dn := c05Duplicate(pf); dn != "" {
 					c.Violation("c05.duplicate-definition", fmt.Sprintf("%s (flags %v): %s is defined more than once (Coq rejects the second definition)", p.name, flags, dn), map[string]string{"gen.go": p.src, "emitted.v": text})
+				}
+				if msg := c05Arity(pf); msg != "" {
+					c.Report("c05.nesting", fmt.Sprintf("%s (flags %v): read with Coq's precedence the nesting of a call is not the source's: %s", p.name, flags, msg), map[string]string{"gen.go": p.src, "emitted.v": text})
 				}
 				for _, d := range pf.Decls {
 					if d.Body == nil {
@@ -412,6 +439,9 @@ func c05Rich(c *ev.Ctx, flagSets [][]string) int {
 			if dn := c05Duplicate(pf); dn != "" {
 				c.Violation("c05.duplicate-definition", fmt.Sprintf("%s (flags %v): %s is defined more than once (Coq rejects the second definition)", p.Name, flags, dn), map[string]string{"gen.go": p.Source, "emitted.v": text})
 			}
+			if msg := c05Arity(pf); msg != "" {
+				c.Report("c05.nesting", fmt.Sprintf("%s (flags %v): read with Coq's precedence the nesting of a call is not the source's: %s", p.Name, flags, msg), map[string]string{"gen.go": p.Source, "emitted.v": text})
+			}
 			for _, d := range pf.Decls {
 				if d.Body == nil || (d.Kind != "def" && d.Kind != "structdecl") {
 					continue
@@ -504,6 +534,53 @@ func c05Stale(c *ev.Ctx, p c05Pkg) {
 		c.Violation("c05.stale-output", fmt.Sprintf("the file written over an earlier (longer) translation of the same package is not the translation of the current source (%d bytes, a fresh output directory gets %d): text that does not come from the source changes which definitions Coq sees", len(a), len(b)),
 			map[string]string{"got.v": string(a), "want.v": string(b)})
 	}
+}
+
+// c05Arity: no application whose head is a function defined in the same file has MORE arguments than that definition
+// has binders (type parameters first), unless the function's body ends in a function (method values and interface
+// conversions are partial applications, so fewer arguments are legitimate).
+func c05Arity(pf *vparse.File) string {
+	ar := map[string]int{}
+	returnsFunc := map[string]bool{}
+	for _, d := range pf.Decls {
+		if d.Kind == "def" && d.Body != nil && d.Body.Kind == "rec" {
+			ar[d.Name] = len(d.TypeParams) + len(d.Body.Binders)
+			d.Body.Walk(func(n *vparse.Node) {
+				if n != d.Body && (n.Kind == "lam" || n.Kind == "rec") {
+					returnsFunc[d.Name] = true
+				}
+			})
+		}
+	}
+	bad := ""
+	for _, d := range pf.Decls {
+		if d.Body == nil {
+			continue
+		}
+		// (f a) b c is f a b c: count the arguments along the spine, at the outermost application only
+		inner := map[*vparse.Node]bool{}
+		d.Body.Walk(func(n *vparse.Node) {
+			if n.Kind == "app" && n.Kids[0].Kind == "app" {
+				inner[n.Kids[0]] = true
+			}
+		})
+		d.Body.Walk(func(n *vparse.Node) {
+			if bad != "" || n.Kind != "app" || inner[n] {
+				return
+			}
+			head, args := n, 0
+			for head.Kind == "app" {
+				args += len(head.Kids) - 1
+				head = head.Kids[0]
+			}
+			if head.Kind == "id" {
+				if want, ok := ar[head.Name]; ok && args > want && !returnsFunc[head.Name] {
+					bad = fmt.Sprintf("in %s, %s (defined with %d parameters) is applied to %d arguments: %s", d.Name, head.Name, want, args, n.String())
+				}
+			}
+		})
+	}
+	return bad
 }
 
 func c05Duplicate(pf *vparse.File) string {
